@@ -144,6 +144,11 @@ func c09http(c *run.Ctx) {
 			if t.Kind == "access" {
 				// the inspected token itself as bearer credential: never answered
 				tokCallers = append(append([]caller(nil), callers...), caller{"bearer-is-the-inspected-token", world.Auth{}, t.Value, 0})
+				if alt := respellKeyPart(t.Value); alt != t.Value {
+					// the same token again: the last character of the random part has two bits that carry no data, and the decoder
+					// ignores them, so this string decodes to the same bytes and has the same signature
+					tokCallers = append(tokCallers, caller{"bearer-is-the-inspected-token-respelled-in-its-spare-bits", world.Auth{}, alt, 0})
+				}
 				if bare := strings.TrimPrefix(t.Value, "ory_at_"); bare != t.Value {
 					// the same token in its other accepted spelling (opaque tokens are honoured with and without their prefix)
 					tokCallers = append(tokCallers, caller{"bearer-is-the-inspected-token-spelled-without-prefix", world.Auth{}, bare, 0})
@@ -506,4 +511,24 @@ func c09IntegratorStrategy(c *run.Ctx) {
 			c.Violate(run.Violation{Kind: "http-inactive-but-live", Key: "http-inactive-but-live integrator-strategy: " + p.name, Detail: fmt.Sprintf("status %d body %s %s", out.Status, out.Body, world.ErrDetail(out.Err))})
 		}
 	}
+}
+
+// respellKeyPart changes the two spare bits of the last base64url character of an opaque token's random part (32 bytes are
+// 42 full characters plus one that carries 4 bits). JWTs and other shapes are returned unchanged.
+func respellKeyPart(tok string) string {
+	const alpha = "ABCDEFGHIJKLMNOPQRSTUVWXYZabcdefghijklmnopqrstuvwxyz0123456789-_"
+	parts := strings.Split(tok, ".")
+	if len(parts) != 2 {
+		return tok
+	}
+	key := parts[0]
+	body := key[strings.LastIndex(key, "_")+1:]
+	if len(body) != 43 {
+		return tok
+	}
+	i := strings.IndexByte(alpha, key[len(key)-1])
+	if i < 0 {
+		return tok
+	}
+	return key[:len(key)-1] + string(alpha[i^1]) + "." + parts[1]
 }
